@@ -341,8 +341,8 @@ pub fn profile_for(prop: &str) -> PProfile {
     let d = PProfile::default();
     match prop {
         "C01" => PProfile { over_capacity_pct: 85, chaos_umc_pct: 50, chaos_clear_pct: 10, if_present_pct: 12, collide_pct: 5, ..d },
-        "C02" => PProfile { keys: (1, 5), get_mut_write: true, chaos_clear_pct: 25, collide_pct: 30, lookup_pct: 40, validator_pct: 15, ..d },
-        "C06" => PProfile { chaos_clear_pct: 30, over_capacity_pct: 60, ttl_pct: 35, ..d },
+        "C02" => PProfile { keys: (1, 5), get_mut_write: true, chaos_clear_pct: 25, collide_pct: 30, lookup_pct: 35, validator_pct: 15, wait_pct: 12, ..d },
+        "C06" => PProfile { chaos_clear_pct: 30, over_capacity_pct: 60, ttl_pct: 35, small_buffer_pct: 25, ..d },
         "C07" => PProfile { clients: (1, 3), keys: (4, 16), over_capacity_pct: 100, lookup_pct: 50, ttl_pct: 5, remove_pct: 5, chaos_umc_pct: 20, ops: (10, 40), collide_pct: 0, ..d },
         "C08" => PProfile { chaos_clear_pct: 15, over_capacity_pct: 60, exit_only_cb_pct: 20, ttl_pct: 30, ..d },
         "C10" => PProfile { wait_pct: 25, chaos_clear_pct: 35, chaos_close_pct: 35, small_buffer_pct: 50, lookup_pct: 10, ops: (3, 12), ..d },
@@ -485,6 +485,8 @@ pub fn gen_p_family(prop: &str, seed: u64, pf: &PProfile) -> Plan {
                     let ttl = if rng.chance(pf.ttl_pct, 100) { gen_ttl_value(&mut rng).min(20 * SEC) } else { 0 };
                     let cost = if cfg.coster && rng.chance(1, 3) {
                         0
+                    } else if rng.chance(1, 14) {
+                        0 // no Coster: a charged cost of exactly zero when internal cost is ignored
                     } else if over && rng.chance(1, 12) {
                         cfg.max_cost + rng.range(0, 3) as i64 // near/over the whole capacity
                     } else {
@@ -750,6 +752,7 @@ pub fn gen_plan(prop: &str, seed: u64, variant: u64) -> Plan {
         "C10" | "C11" | "C12" if variant % 4 == 0 => gen_enum_chaos(prop, seed, variant),
         "C18" if variant % 3 == 0 => gen_c18_lockstep(seed),
         "C18" if variant % 3 == 1 => gen_c18_typed(seed),
+        "C02" if variant % 4 == 1 => gen_p_family(prop, seed, &PProfile { clients: (1, 2), keys: (1, 2), ops: (5, 16), wait_pct: 35, lookup_pct: 30, remove_pct: 5, if_present_pct: 5, over_capacity_pct: 20, collide_pct: 0, chaos_clear_pct: 0, barrier_every: (3, 8), sleeps: false, ..PProfile::default() }),
         "C01" | "C02" | "C06" | "C07" | "C08" | "C10" | "C11" | "C12" | "C13" | "C15" | "C17" | "C18" | "C20" => gen_p_family(prop, seed, &profile_for(prop)),
         _ => gen_ttl_family(prop, seed, false),
     }
